@@ -45,18 +45,18 @@ type vFile struct {
 }
 
 var vfs struct {
-	root     *vInode
-	files    map[*os.File]*vFile
-	faults   int
-	tmp      int
-	mode     int // 0 = full model, 1 = record paths only (confinement)
-	base     string
-	watch    string // absolute path of the key under observation
-	old, new []byte
-	hasOld   bool
-	shortRd  bool
+	root      *vInode
+	files     map[*os.File]*vFile
+	faults    int
+	tmp       int
+	mode      int // 0 = full model, 1 = record paths only (confinement)
+	base      string
+	watch     string // absolute path of the key under observation
+	old, new  []byte
+	hasOld    bool
+	shortRd   bool
 	recOpenOK bool
-	ops      []string
+	ops       []string
 }
 
 func vfsReset(base string, faults int) {
